@@ -173,6 +173,14 @@ class Opaque:
 
 
 @dataclass
+class Packed:
+    """the bytes `STRUCT.pack(args...)`"""
+    struct: str
+    args: list
+    node: ast.AST = None
+
+
+@dataclass
 class Event:
     kind: str
     node: ast.AST
@@ -293,6 +301,8 @@ class StreamInterp:
                 self.events.append(Event("header", c, b.at, dict(value=h, raises=True), dict(self.env), self.S))
                 return h
             raise AnalysisError(f"{self.fn.key}: `{norm(c)[:60]}` unpacks bytes that are not one whole {sname}")
+        if cn.endswith(".pack") and cn[: -len(".pack")] in self.structs:
+            return Packed(cn[: -len(".pack")], [self.ev(a) for a in c.args], c)
         if cn == f"{self.stream}.seek":
             self._seek(c)
             return Opaque("seek")
@@ -326,6 +336,22 @@ class StreamInterp:
         if self.stream in norm(c) or self.unpack in norm(c):
             raise AnalysisError(f"{self.fn.key}: `{norm(c)[:60]}` touches the stream in a way the offset model does not know")
         return Opaque(norm(c))
+
+    def pieces(self, e):
+        """what a write of `e` puts on the stream, in order: [(value, length as Aff or None)]"""
+        if isinstance(e, ast.BinOp) and isinstance(e.op, ast.Add):
+            return self.pieces(e.left) + self.pieces(e.right)
+        if isinstance(e, ast.Call) and (call_name(e) or "") in ("b''.join", 'b"".join', "bytes().join") and e.args and isinstance(e.args[0], (ast.Tuple, ast.List)):
+            out = []
+            for x in e.args[0].elts:
+                out += self.pieces(x)
+            return out
+        v = self.ev(e)
+        if isinstance(v, Packed):
+            return [(v, Aff.sym(f"{v.struct}.size"))]
+        if isinstance(e, ast.Name) and (e.id not in self.env or isinstance(v, (Opaque, Aff))):
+            return [(Opaque(e.id), Aff.sym(f"len({e.id})"))]
+        return [(Opaque(norm(e)), None)]
 
     def _seek(self, c):
         whence = norm(c.args[1]) if len(c.args) > 1 else "0"
@@ -436,13 +462,14 @@ class StreamInterp:
                         self.events.append(Event("truncate", s, self.S, dict(to=a), dict(self.env), self.S))
                         continue
                     if cn == f"{self.stream}.write":
-                        v = self.ev(s.value.args[0])
-                        self.events.append(Event("write", s, self.S, dict(value=v, text=norm(s.value.args[0])), dict(self.env), self.S))
-                        self.S = None if self.S is None else self.S + Aff.sym(f"len({norm(s.value.args[0])})")
+                        for piece, ln in self.pieces(s.value.args[0]):
+                            self.events.append(Event("write", s, self.S, dict(value=piece, length=ln, text=norm(s.value.args[0])), dict(self.env), self.S))
+                            self.S = None if (self.S is None or ln is None) else self.S + ln
                         continue
                     if cn == self.pack_write:
                         sname = norm(s.value.args[0])
-                        self.events.append(Event("pack-write", s, self.S, dict(struct=sname, args=[self.ev(a) for a in s.value.args[1:]]), dict(self.env), self.S))
+                        pk = Packed(sname, [self.ev(a) for a in s.value.args[1:]], s.value)
+                        self.events.append(Event("write", s, self.S, dict(value=pk, length=Aff.sym(f"{sname}.size"), text=norm(s.value)), dict(self.env), self.S))
                         self.S = None if self.S is None else self.S + Aff.sym(f"{sname}.size")
                         continue
                     self.ev(s.value)
@@ -460,6 +487,15 @@ class StreamInterp:
                 return False
             elif isinstance(s, (ast.FunctionDef, ast.Import, ast.ImportFrom, ast.Global, ast.Nonlocal, ast.Assert)):
                 pass
+            elif isinstance(s, ast.Try):
+                self.events.append(Event("try", s, self.S, dict(handlers=s.handlers), dict(self.env), self.S))
+                if not (self.run(s.body) and self.run(s.orelse) and self.run(s.finalbody)):
+                    return False
+            elif isinstance(s, ast.With):
+                for it_ in s.items:
+                    self.ev(it_.context_expr)
+                if not self.run(s.body):
+                    return False
             else:
                 raise AnalysisError(f"{self.fn.key}: statement `{norm(s)[:50]}` is not modelled by the offset analysis")
         return True
